@@ -79,11 +79,12 @@ def lemma_idx_zero(g: A[int, 1], m: int):
 
 
 @contract("mchap.jitutils.increment_genotype", machine_ints=True, props=["C11"])
-def increment_genotype(genotype: A[i8, 1]):
+def increment_genotype(genotype: A[iN, 1]):
     requires(len(genotype) >= 1)
     requires(forall(0, len(genotype), lambda t: genotype[t] >= 0))
     requires(forall(1, len(genotype), lambda t: genotype[t - 1] <= genotype[t]))
-    requires(genotype[len(genotype) - 1] < 2 ** 62)
+    # the incremented allele still fits the array's integer type
+    requires(genotype[len(genotype) - 1] < 2 ** 62, genotype[len(genotype) - 1] < dtype_max(genotype))
     modifies(genotype)
     # the successor in VCF order
     ensures(IDX(genotype, len(genotype)) == IDX(old(genotype), len(genotype)) + 1)
